@@ -370,7 +370,11 @@ def run(cx):
         w = [x for x in sub.obs if x.oid == "C17.7"]
         ob.count(sum(x.evals for x in w))
         bad = [v for x in w for v in x.violations]
-        ob.require(len(w) == 1 and not bad, "status/handler-error-intact", "the error status a handler produced is altered on its way to the caller: " + "; ".join(str(v.msg) for v in bad)[:300], "anemo::rpc::Status")
+        # ... and the server helper answers a handler's Err(status) with exactly that conversion (C17.5 map_response clauses)
+        w5 = [x for x in sub.obs if x.oid == "C17.5"]
+        ob.count(sum(x.evals for x in w5))
+        bad += [v for x in w5 for v in x.violations if "map_response" in v.key]
+        ob.require(len(w) == 1 and len(w5) == 1 and not bad, "status/handler-error-intact", "the error status a handler produced is altered on its way to the caller: " + "; ".join(str(v.msg) for v in bad)[:300], "anemo::rpc::Status")
 
     with cx.ob("C02.10", "R-SHAPE", "one layer out: every tower Layer of the anemo crate (the boxed per-method layer of generated servers, the timeout and extension layers) wraps the service it is given - layer() builds its result directly around `inner` on every call, so a handler is never replaced by one built for another route") as ob:
         lbs = [b_ for b_ in prog.bodies.values() if b_.crate == "anemo" and "tower_layer::Layer" in b_.path and b_.path.endswith(">::layer")]
